@@ -25,6 +25,17 @@ pub fn verify_oods<Layout: LayoutTrait>(
     trace_domain_size: &Felt,
     trace_generator: &Felt,
 ) -> Result<(), OodsVerifyError> {
+    // The vector holds the MASK_SIZE mask values followed by the CONSTRAINT_DEGREE composition
+    // values. It is read positionally both here (from the end) and by the DEEP quotient
+    // (from the start), so its length must be exact.
+    ensure!(
+        oods.len() == Layout::MASK_SIZE + Layout::CONSTRAINT_DEGREE,
+        OodsVerifyError::InvalidLength {
+            expected: Layout::MASK_SIZE + Layout::CONSTRAINT_DEGREE,
+            actual: oods.len()
+        }
+    );
+
     let composition_from_trace = Layout::eval_composition_polynomial(
         interaction_elements,
         public_input,
@@ -47,7 +58,7 @@ pub fn verify_oods<Layout: LayoutTrait>(
     )
 }
 
-use swiftness_transcript::assure;
+use swiftness_transcript::{assure, ensure};
 #[cfg(feature = "std")]
 use thiserror::Error;
 
@@ -56,6 +67,8 @@ use thiserror::Error;
 pub enum OodsVerifyError {
     #[error("oods invalid {expected} - {actual}")]
     EvaluationInvalid { expected: Felt, actual: Felt },
+    #[error("oods values length invalid: expected {expected}, actual {actual}")]
+    InvalidLength { expected: usize, actual: usize },
     #[error("CompositionPolyEval Error")]
     CompositionPolyEvalError(#[from] CompositionPolyEvalError),
 }
@@ -68,6 +81,8 @@ use thiserror_no_std::Error;
 pub enum OodsVerifyError {
     #[error("oods invalid {expected} - {actual}")]
     EvaluationInvalid { expected: Felt, actual: Felt },
+    #[error("oods values length invalid: expected {expected}, actual {actual}")]
+    InvalidLength { expected: usize, actual: usize },
     #[error("CompositionPolyEval Error")]
     CompositionPolyEvalError(#[from] CompositionPolyEvalError),
 }
